@@ -16,6 +16,7 @@ RULE = (
     'kernel'
     '; pass 5: call variants (x2=None, explicit diag=False, keyword arguments, 1-d vector inputs); `views` relation = two different views of one tensor with equal shape and storage offset'
     '; pass 6: operator nestings of sums and products evaluated along the SPEC tree; one-hot sequences longer than 256 stored as uint8 / bool / int8 / int64 / float32'
+    "; pass 8: cylindrical kernel at the centre of the ball and at axis-aligned points (oracle follows the documented eps), near-deterministic inputs of the symmetrised-KL kernel, parameters moved in place while in evaluation mode"
 )
 REQUIRED = ["kernel_value", "kernel_diag", "grad_kernel_value", "path:RBFCovariance.forward", "path:MaternCovariance.forward"]
 ASSUMPTIONS = [
